@@ -8,6 +8,7 @@ any cache limit, with eviction (`Release`, pruning) possible at every moment.
 import SemaModel.C11.Witness
 import SemaModel.C11.Progress
 import SemaModel.C11.Inv16
+import SemaModel.C11.Inv19
 import SemaModel.C11.Skeleton
 import SemaModel.Generated.FactsC11
 set_option linter.unusedSimpArgs false
@@ -96,6 +97,145 @@ theorem C11_released {s0 s : St} (hi : Init s0) (hv : s0.v = fixedV) (hr : Reach
             simp [St.unfinished, hlt, Thread.done] at this
             cases hp : (s.thr (.c T)).pc <;> simp [hp] at this <;> simp [stillHeld, hp] at h2
           · rw [ho.wr T (Nat.le_of_not_lt hlt)] at h1; simp at h1
+
+/-! ## C11_mutex
+
+Full statement: while an object is write-held by transaction T — from T's first write access to it
+(`callF` of a writing access; ghost `wown`) until T's Commit unlocks it (or T replaces it) — no
+callback of another transaction runs on that object; callbacks of different transactions that run
+on the same object at the same time are all read-only; a reader that could not `TryRLock` (or met a
+scrapped cache) runs on a cold copy that only its creator ever references; a read-only access
+never waits for a cache lock.  Hypotheses: `Init s0`, the model of the current source, any
+interleaving, evictions at any moment, NO assumption about bbolt. -/
+
+theorem C11_mutex {s0 s : St} (hi : Init s0) (hv : s0.v = fixedV) (hr : Reachable s0 s)
+    (t : Tid) (T' : TxId) (hcb : (s.thr t).pc = .inF) (hown : T' ∈ (s.objs (s.thr t).use).wown) :
+    T' = (s.thr t).tx := by
+  have a := all_reachable hi hv hr
+  have h := a.inv
+  have hlt := h.bounds.use t (by simp [hcb, useValid])
+  have hact : (s.thr t).pc ≠ .idle ∧ isCommitPC (s.thr t).pc = false := by simp [hcb, isCommitPC]
+  have hs2 := a.use.s2 t T' (Or.inl (by simp [hcb, postCheck]))
+  rcases a.use.post t (by simp [hcb, postCheck]) with hsrc | hd
+  · rcases hsrc with c1 | c1 | c1
+    · -- own cold copy
+      have hcf := a.own.coldfree _ hlt c1
+      rcases a.own.w1 _ T' hlt hown with ⟨_, w⟩ | w | w
+      · rcases h.pub.use t (by simp [hcb, useValid]) with hp | hp
+        · have := h.pub.cold _ hlt c1; rw [hp] at this; exact absurd this (by simp)
+        · rw [hp] at w; exact w.symm
+      · rw [hcf.2.1] at w; exact absurd w (by simp)
+      · rw [hcf.2.2] at w; exact absurd w (by simp)
+    · -- read lock held
+      have hrd := (h.rd.rl t _).mpr c1
+      rcases a.own.w1 _ T' hlt hown with ⟨w, _⟩ | w | w
+      · have := (a.own.coldfree _ hlt w).1; rw [this] at hrd; simp at hrd
+      · have := h.rd.excl _ (by rw [w]; simp); rw [this] at hrd; simp at hrd
+      · exact (hs2 w).symm
+    · -- write lock of the own transaction
+      have hw := writer_of_registered h (t := t) hact.1 hact.2 c1
+      rcases a.own.w1 _ T' hlt hown with ⟨w, _⟩ | w | w
+      · have := (a.own.coldfree _ hlt w).2.1; rw [hw] at this; exact absurd this (by simp)
+      · rw [hw] at w; injection w with w; exact w.symm
+      · exact (hs2 w).symm
+  · exact a.own.w2 _ T' _ hlt hown hd
+
+/-- callbacks of two different transactions on the same object at the same time: both read-only -/
+theorem C11_mutex_overlap {s0 s : St} (hi : Init s0) (hv : s0.v = fixedV) (hr : Reachable s0 s)
+    (t1 t2 : Tid) (h1 : (s.thr t1).pc = .inF) (h2 : (s.thr t2).pc = .inF)
+    (ho : (s.thr t1).use = (s.thr t2).use) (htx : (s.thr t1).tx ≠ (s.thr t2).tx) :
+    (s.thr t1).acc.ro = true ∧ (s.thr t2).acc.ro = true := by
+  have a := all_reachable hi hv hr
+  have h := a.inv
+  -- a writing access in its callback holds no read lock; every other way of holding the object is exclusive
+  have key : ∀ ta tb : Tid, (s.thr ta).pc = .inF → (s.thr tb).pc = .inF → (s.thr ta).use = (s.thr tb).use →
+      (s.thr ta).tx ≠ (s.thr tb).tx → (s.thr ta).acc.ro = true := by
+    intro ta tb ha hb hab hne
+    cases hro : (s.thr ta).acc.ro with
+    | true => rfl
+    | false =>
+      exfalso
+      have hlt := h.bounds.use ta (by simp [ha, useValid])
+      have hacta : (s.thr ta).pc ≠ .idle ∧ isCommitPC (s.thr ta).pc = false := by simp [ha, isCommitPC]
+      have hactb : (s.thr tb).pc ≠ .idle ∧ isCommitPC (s.thr tb).pc = false := by simp [hb, isCommitPC]
+      have hnorl : ∀ o, Defer.runlock o ∉ (s.thr ta).defers := by
+        intro o
+        have hdf := h.defers ta
+        unfold DefersOK at hdf
+        rcases hdf.1 with hn | hn
+        · exact noRunlock_not_mem hn o
+        · rw [hro] at hn; exact absurd hn (by simp)
+      have s2a := a.use.s2 ta
+      have s2b := a.use.s2 tb
+      have pa := a.use.post ta (by simp [ha, postCheck])
+      have pb := a.use.post tb (by simp [hb, postCheck])
+      unfold Src at pa pb
+      rw [← hab] at pb s2b
+      -- what `ta` has
+      rcases pa with (ca | ca | ca) | ca
+      · -- cold copy of ta: tb uses it too, so tb is its creator as well
+        have hca := h.pub.cold _ hlt ca
+        have va := h.pub.use ta (by simp [ha, useValid])
+        have vb := h.pub.use tb (by simp [hb, useValid])
+        rw [← hab] at vb
+        rcases va with va | va
+        · rw [hca] at va; exact absurd va (by simp)
+        · rcases vb with vb | vb
+          · rw [hca] at vb; exact absurd vb (by simp)
+          · rw [va] at vb; rw [vb] at hne; exact hne rfl
+      · exact hnorl _ ca
+      · have hwa := writer_of_registered h (t := ta) hacta.1 hacta.2 ca
+        rcases pb with (cb | cb | cb) | cb
+        · have := (a.own.coldfree _ hlt cb).2.1; rw [hwa] at this; exact absurd this (by simp)
+        · have hrd := (h.rd.rl tb _).mpr cb
+          have := h.rd.excl _ (by rw [hwa]; simp); rw [this] at hrd; simp at hrd
+        · have hwb := writer_of_registered h (t := tb) hactb.1 hactb.2 cb
+          rw [hwa] at hwb; injection hwb with e; exact hne e
+        · exact hne (s2a _ (Or.inl (by simp [ha, postCheck])) cb)
+      · -- ta works on an object its own transaction has replaced
+        have hb' := s2b _ (Or.inl (by simp [hb, postCheck])) ca
+        exact hne hb'.symm
+  exact ⟨key t1 t2 h1 h2 ho htx, key t2 t1 h2 h1 ho.symm (fun e => htx e.symm)⟩
+
+/-- a cold copy is referenced only by the goroutine that created it -/
+theorem C11_private_copy {s0 s : St} (hi : Init s0) (hv : s0.v = fixedV) (hr : Reachable s0 s)
+    (t : Tid) (hu : useValid (s.thr t).pc = true) (hc : (s.objs (s.thr t).use).cold = true) :
+    (s.objs (s.thr t).use).creator = t ∧ (s.objs (s.thr t).use).readers = [] ∧ (s.objs (s.thr t).use).writer = none ∧
+      ∀ n, s.map n ≠ some (s.thr t).use := by
+  have a := all_reachable hi hv hr
+  have h := a.inv
+  have hlt := h.bounds.use t hu
+  have hcf := a.own.coldfree _ hlt hc
+  have hnp := h.pub.cold _ hlt hc
+  refine ⟨?_, hcf.1, hcf.2.1, ?_⟩
+  · rcases h.pub.use t hu with hp | hp
+    · rw [hnp] at hp; exact absurd hp (by simp)
+    · exact hp
+  · intro n hm
+    rcases h.pub.map n _ hm with hp | ⟨hp1, hp2⟩
+    · rw [hnp] at hp; exact absurd hp (by simp)
+    · -- the only unpublished map entries are fresh objects of the new-cache branch, which are not cold
+      have hcu : (s.objs (s.thr (s.objs (s.thr t).use).creator).use).cold = false := by
+        by_cases hq : newPriv (s.thr (s.objs (s.thr t).use).creator).pc = true
+        · exact (h.pub.priv _ hq).2.2
+        · have hl : (s.thr (s.objs (s.thr t).use).creator).pc = .nTxUnlock ∨
+              (s.thr (s.objs (s.thr t).use).creator).pc = .nMgrUnlock := by
+            cases hpc : (s.thr (s.objs (s.thr t).use).creator).pc <;> simp_all [newLate, newPriv]
+          exact (h.pub.late _ hl).2
+      rw [hp2, hc] at hcu; exact absurd hcu (by simp)
+
+/-- a read-only access never waits for a cache lock: if it cannot move it waits for the manager mutex
+or for its transaction mutex -/
+theorem C11_reader_never_blocks_on_cache {s0 s : St} (hi : Init s0) (hv : s0.v = fixedV) (hr : Reachable s0 s)
+    (t : Tid) (hro : (s.thr t).acc.ro = true) (hp : (s.thr t).pc ≠ .idle) (hc : isCommitPC (s.thr t).pc = false)
+    (hb : stepCond s t = false) : mgrAcq (s.thr t).pc = true ∨ (s.thr t).pc = .rTxLock := by
+  have a := all_reachable hi hv hr
+  have h := a.inv
+  have hrw := h.kind.rw t
+  have hleg := h.kind.legacy t
+  unfold stepCond at hb
+  cases hpc : (s.thr t).pc <;> simp [hpc, rwPC, hro, isCommitPC, mgrAcq] at hrw hleg hp hc hb ⊢
+  · have := new_free h (t := t) (by simp [hpc, newPre]); simp [this.2] at hb
 
 /-! ## C11_failed_dropped
 
